@@ -15,7 +15,11 @@ MUTATORS = ("push|pop|clear|remove|truncate|retain|insert|extend|drain|append|sw
             "resize|push_back|push_front|pop_back|pop_front|extend_from_slice|take")
 # (String::truncate / split_at / split_off / replace_range / drain panic on an offset that is out of range or not a character
 # boundary; Vec::truncate does not panic, but the slicer does not know the receiver's type: every such call is a listed site)
-PANIC_RX = r"\b(?:unreachable|panic|todo|unimplemented|assert|assert_eq|assert_ne)!\s*[(\[{]|\.\s*unwrap\s*\(\s*\)|\.\s*expect\s*\(|\.\s*(?:truncate|split_at|split_off|replace_range|drain|swap_remove)\s*\("
+# (an index that is not a literal — `xs[i]`, `map[&key]`, `v[v.len() - 1]` — panics when it is out of range / absent; literal
+# indexes are decided by the slice itself, ranges `xs[a..b]` are listed with the slicing calls of the text units)
+COMPUTED_INDEX_RX = r"(?<![\w!#&'])[A-Za-z_][\w\.]*(?:\(\))?\s*\[\s*(?!\d+\s*\])(?![^\]\n]*\.\.)[^\]\[\n;=]+\]"
+PANIC_RX = (r"\b(?:unreachable|panic|todo|unimplemented|assert|assert_eq|assert_ne)!\s*[(\[{]|\.\s*unwrap\s*\(\s*\)|\.\s*expect\s*\(|\.\s*(?:truncate|split_at|split_off|replace_range|drain|swap_remove)\s*\(|"
+            + COMPUTED_INDEX_RX)
 KEYWORDS = {"self", "Self", "crate", "super", "vec"}
 
 
